@@ -1198,10 +1198,10 @@ class Sum(Expression):
             if ranges == set(children):
                 return One()
             elif ranges > set(children):
-                keep = ranges - set(children)
+                # the summand sums to one; the ranges it does not mention are still summed over
                 return Sum.safe(
                     expression=One(),
-                    ranges=frozenset(v for k, v in children.items() if k in keep),
+                    ranges=frozenset(ranges - set(children)),
                 )
             elif ranges < set(children):
                 keep = set(children) - ranges
